@@ -15,7 +15,7 @@ from . import units as U
 from .model import Model, Mod, dotted_name, member_kind, body_wo_doc, is_logging_stmt, src
 from .report import AnalysisError
 
-MAX_DEPTH = 12
+MAX_DEPTH = 40
 MAX_UNROLL = 4096
 
 
